@@ -14,7 +14,7 @@ RULE = ("(1) the Workspace machine's action properties OperandsUnchanged / CopyI
         "snapshots of every live object before and after")
 ASSUMPTIONS = ["in-place actions only on registers that are alone in their alias group"]
 
-FLOORS = {"sweep": (150, 150), "config=siblings": (70, 70), "act=copy": (50, 50), "copy-then-inplace": (30, 30), "act=query": (300, 300),
+FLOORS = {"sweep": (150, 150), "config=siblings": (70, 70), "act=copy": (50, 50), "act=ctor_meta": (50, 50), "copy-then-inplace": (30, 30), "act=query": (300, 300),
           "act=align_sorted": (50, 50)}
 
 
